@@ -428,8 +428,21 @@ def r6_only_outer_decorators(ctx):
 
 
 def r7_own_code_object(ctx):
-    """The code object handed to FunctionType must be the method's own: among the code constants of the compiled
-    definition it is the LAST one (code objects of lambdas / comprehensions in the defaults come before it)."""
+    """The code object handed to FunctionType must be the method's own - decided by abstractly executing the
+    re-compiler on a function with a lambda (holding a comprehension) in its signature; the reading of the
+    statement that picks the constant is the fallback."""
+    from . import recodeexec
+    from .common import run_fallback
+
+    n0 = len(ctx.obs)
+    try:
+        recodeexec.law(ctx, "carried-over", scenarios=["function-with-a-lambda-default", "plain-function"])
+    except AnalysisError as e:
+        del ctx.obs[n0:]
+        run_fallback(ctx, _r7_own_code_object_shape, e, "re-compiler")
+
+
+def _r7_own_code_object_shape(ctx):
     rc = A.recompiler(ctx.repo)
     ctx.touch(rc)
     ft = [c for c in ast.walk(rc.node) if isinstance(c, ast.Call) and call_name(c) in ("FunctionType", "types.FunctionType")]
